@@ -90,6 +90,29 @@ def _imports():
             self.walk = None
             self.plan = None
             self.calls = []                    # (reverse, success, path.length) per _propagate_from call
+            self.reset_store()
+
+        # -- reversible toy dynamics behind the scripted order values ("ordered in time" is judged on it) ----------
+        # A stored phase point is (traj, t, v): trajectory label, time label, sign of the STORED velocity; one MD step
+        # moves t by v.  `files` maps a file name to the stored points of its frames.  The real `propagate` extracts the
+        # start frame (`_extract_frame`), flips its stored velocity when `reverse != system.vel_rev`
+        # (`_reverse_velocities`) and flags what `_propagate_from` produces with vel_rev = reverse; a velocity kick
+        # (`modify_velocities`) starts a fresh trajectory.  The velocity in the direction of a PATH is v, flipped when
+        # the frame's vel_rev flag is set (enginebase.py:171).
+        def reset_store(self, keep_rev=True):
+            self.files = {}
+            self.ntraj = 0
+            self.kick_revs = []
+            self.keep_rev = keep_rev           # False: the engine clears vel_rev at the kick (as the GROMACS engine does)
+
+        def stored(self, config):
+            fn, idx = config
+            if fn == _ENV.get("oldfile"):
+                return _OLDSTATE.get(idx)
+            st = self.files.get(fn)
+            if st is None or idx is None or not 0 <= idx < len(st):
+                return None
+            return st[idx]
 
         def script_wf(self, jumps, ext_back, ext_forw):
             """wire fencing: per jump (kick, back, forw), then the extender's two streams"""
@@ -99,6 +122,7 @@ def _imports():
             self.used = {True: 0, False: 0}
             self.kicks = 0
             self.calls = []
+            self.reset_store()
 
         def script(self, back, forw, kick, dek=0.0):
             self.back, self.forw, self.dek = list(back), list(forw), dek
@@ -106,6 +130,7 @@ def _imports():
             self.used = {True: 0, False: 0}
             self.kicks = 0
             self.calls = []
+            self.reset_store()
 
         def modify_velocities(self, system, vel_settings):
             self.kicks += 1
@@ -114,7 +139,13 @@ def _imports():
                 if self.jump >= len(self.plan["jumps"]):
                     raise BadDraw()
                 self.order_function.kick = float(self.plan["jumps"][self.jump][0])
-            system.config = (os.path.join(self.exe_dir, "genvel.xyz"), 0)
+            self.ntraj += 1
+            fn = os.path.join(self.exe_dir, f"genvel_{self.ntraj}.xyz")
+            self.files[fn] = [(self.ntraj, 0, 1)]      # fresh velocities: a new trajectory
+            system.config = (fn, 0)
+            if not self.keep_rev:
+                system.vel_rev = False
+            self.kick_revs.append(bool(system.vel_rev))
             system.ekin = 1.0
             return self.dek, 1.0
 
@@ -125,10 +156,11 @@ def _imports():
             return np.zeros((1, 3)), np.zeros((1, 3)), None, None
 
         def _extract_frame(self, traj_file, idx, out_file):
-            pass
+            self.files[out_file] = [self.stored((traj_file, idx))]
 
         def _reverse_velocities(self, filename, outfile):
-            pass
+            st = self.stored((filename, 0))
+            self.files[outfile] = [None if st is None else (st[0], st[1], -st[2])]
 
         def _propagate_from(self, name, path, system, ens_set, msg_file, reverse=False):
             left, _, right = ens_set["interfaces"]
@@ -149,7 +181,10 @@ def _imports():
                 seq = [float(x) for x in seq]
             else:
                 seq = self.back if reverse else self.forw
+            st0 = self.stored(system.config)
+            self.files[traj_file] = []
             for k, op in enumerate([system.order[0]] + seq):
+                self.files[traj_file].append(None if st0 is None else (st0[0], st0[1] + k * st0[2], st0[2]))
                 snapshot = {"order": [self.order_function.conv(op)], "config": (traj_file, k), "vel_rev": reverse}
                 pp = self.snapshot_to_system(system, snapshot)
                 self.used[reverse] += 1
@@ -203,6 +238,51 @@ class BadDraw(Exception):
     pass
 
 
+_OLDSTATE = {}          # frame index of the current old path -> stored phase point (set by mk_old)
+
+
+def frames_of(eng, path):
+    """the frames of a path as (order, traj, t, stored v, vel_rev); None where a frame refers to no stored phase point"""
+    out = []
+    for s in path.phasepoints:
+        try:
+            st = eng.stored(s.config)
+        except Exception:  # noqa: BLE001
+            st = None
+        out.append(None if st is None else (to_int(s.order[0]), st[0], st[1], st[2], bool(s.vel_rev)))
+    return out
+
+
+def time_ordered(frames):
+    """the property's "ordered in time", stated on the toy dynamics: every frame and its successor lie on the same
+    trajectory, point the same way along the path (u = stored velocity, flipped when vel_rev), and ONE MD step in that
+    direction leads from the one to the other.  Returns the index of the first offending frame, or None.
+    (Lean: Infretis.Moves.TimeOrdered / timeOrderedB, theorem wf_acc_time_ordered.)"""
+    for k in range(len(frames) - 1):
+        a, b = frames[k], frames[k + 1]
+        if a is None or b is None:
+            continue
+        ua = -a[3] if a[4] else a[3]
+        ub = -b[3] if b[4] else b[3]
+        if not (b[1] == a[1] and ub == ua and b[2] == a[2] + ua):
+            return k
+    return None
+
+
+def show_frames(frames):
+    return "frames " + ("1" if time_ordered(frames) is None else "0") + " | " + lst(
+        ["?" if f is None else f"{f[0]}:{f[1]}:{f[2]}:{f[3]}:{1 if f[4] else 0}" for f in frames])
+
+
+def not_ordered_text(frames, k):
+    def one(f):
+        return "?" if f is None else f"(order {f[0]}, trajectory {f[1]}, t={f[2]}, stored v={f[3]:+d}, vel_rev={f[4]})"
+    a, b = frames[k], frames[k + 1]
+    ua = -a[3] if a[4] else a[3]
+    return (f"frame {k} {one(a)} moves to t={a[2] + ua} on trajectory {a[1]} in one MD step along the path, but frame {k + 1} "
+            f"is {one(b)}")
+
+
 _AUDIT = {"on": False, "events": [], "watch": None, "installed": False}
 
 
@@ -243,7 +323,10 @@ def mk_old(case):
         s.vel_rev = bool((k * 7 + len(case["old"])) % 3 == 0)
         s.ekin, s.vpot = 0.5 * k, -1.0 * k
         p.phasepoints.append(s)
-    p.generated = ("ld" if case["ld"] else "sh", 0.0, 0, 0)
+    _OLDSTATE.clear()
+    for k, s in enumerate(p.phasepoints):
+        _OLDSTATE[k] = (0, k, -1 if s.vel_rev else 1)
+    p.generated = None if case.get("gen_none") else ("ld" if case["ld"] else "sh", 0.0, 0, 0)
     p.status = "ACC"
     p.weights = (1.0, 0.0)
     p.path_number = case.get("pn", 7)
@@ -288,6 +371,7 @@ def run_real(case, eng=None, tis_set=None):
     old = mk_old(case)
     gen = E["ScriptedGen"](case["idx"], float(Fraction(case["xi"])))
     eng.script([conv(x) for x in case["back"]], [conv(x) for x in case["forw"]], conv(case["kick"]))
+    eng.keep_rev = not case.get("krf", False)
     if tis_set is None:
         tis_set = {"maxlength": case["ML"]}
         if case["am"] is not None:
@@ -323,6 +407,8 @@ def run_real(case, eng=None, tis_set=None):
     info["calls"] = list(getattr(eng, "calls", []))
     info["acc"], info["trial"], info["status"] = acc, trial, status
     if trial is not None:
+        info["frames"] = frames_of(eng, trial)                         # before alias_check rewrites config / vel_rev
+        info["krev"] = eng.kick_revs[0] if eng.kick_revs else False
         try:
             info["ci"] = trial.check_interfaces(ens["interfaces"])     # before any predicate touches the returned path
         except Exception as e:  # noqa: BLE001
@@ -351,6 +437,7 @@ def run_real_md(case, eng=None, tis_set=None):
     conv = int if case.get("ints") else float
     eng.order_function.conv = conv
     eng.script([conv(x) for x in case["back"]], [conv(x) for x in case["forw"]], conv(case["kick"]))
+    eng.keep_rev = not case.get("krf", False)
     if shared is None:
         tis_set = {"maxlength": case["ML"], "lambda_minus_one": False}
         if case["am"] is not None:
@@ -382,7 +469,8 @@ def run_real_md(case, eng=None, tis_set=None):
         live = picked[ens_num]["traj"]
         st = md["status"]
         info.update(own=ens_num, status=st, live=live, replaced=live is not old, old_same=snapshot(old) == before,
-                    ops=[to_int(s.order[0]) for s in live.phasepoints], weights=getattr(live, "weights", None))
+                    ops=[to_int(s.order[0]) for s in live.phasepoints], weights=getattr(live, "weights", None),
+                    frames=frames_of(eng, live))
         line = f"ok {st} {1 if live is not old else 0} {md['trial_len'][0]} | {lst(info['ops'])}"
     except BadDraw:
         line = "err:baddraw"
@@ -439,6 +527,12 @@ def check_membership(case, info):
         bad.append(f"does not cross the middle interface {m}")
     if len(ops) > case["ML"]:
         bad.append(f"length {len(ops)} exceeds maxlength {case['ML']}")
+    xi = Fraction(case["xi"])
+    if not case["ld"] and not case["am"] and xi > 0 and not case.get("_shared_tis_set"):
+        # the DRAWN limit min(⌊(L_old−2)/ξ⌋ + 2, maxlength) (Lean: shoot_acc_within_drawn_limit)
+        drawn = min(math.floor(Fraction(len(case["old"]) - 2) / xi) + 2, case["ML"])
+        if len(ops) > drawn:
+            bad.append(f"length {len(ops)} exceeds the drawn length limit {drawn}")
     g = trial.generated
     if not (isinstance(g, tuple) and len(g) == 4 and g[0] == "sh"):
         bad.append(f"generated = {g!r}")
@@ -457,6 +551,11 @@ def check_membership(case, info):
                   for j in range(1, len(ops) - nb))
         if not (okb and okf):
             bad.append("frames are not ordered in time (backward part reversed, then forward part)")
+    fr = info.get("frames")
+    if fr is not None:
+        k = time_ordered(fr)
+        if k is not None:
+            bad.append("not ordered in time: " + not_ordered_text(fr, k))
     if not trial.weight:
         bad.append("weight 0 in its own ensemble")
     return bad
@@ -746,6 +845,10 @@ def gen_cases(ctx):
         c["pn"] = 0 if k % 2 else 7
         if k % 7 == 3:
             c["ints"] = True
+        if k % 5 == 2:
+            c["krf"] = True               # the engine clears vel_rev at the velocity kick (as the GROMACS engine does)
+        if k % 11 == 4 and not c["ld"]:
+            c["gen_none"] = True          # an old path whose `generated` was never set (get_move() returns None)
     return cases
 
 
@@ -827,6 +930,7 @@ def run_real_wf(case):
     rr = _random.Random(case["seed"])
     eng.walk = (rr, (-1, -1, 0, 1, 1, 2))
     eng.order_function.kick = None
+    eng.reset_store(keep_rev=case["seed"] % 3 != 0)
     old = mk_old(case)
     l, m, r = case["intf"]
     tis_set = {"maxlength": case["ML"], "n_jumps": case["n_jumps"]}
@@ -842,7 +946,7 @@ def run_real_wf(case):
     try:
         acc, trial, status = tis.wire_fencing(ens, old, eng, start_cond=sc_tuple(case["sc"]))
         ops = [to_int(s.order[0]) for s in trial.phasepoints]
-        res.update(acc=acc, status=status, ops=ops, trial=trial, same_obj=trial is old,
+        res.update(acc=acc, status=status, ops=ops, trial=trial, same_obj=trial is old, frames=frames_of(eng, trial),
                    line=f"ok {acc} {status} {trial.generated!r} | {lst(ops)}")
         if acc:
             res["cv"] = tis.calc_cv_vector(trial, [float(l), float(m), float(r)], ["sh", "sh", "wf"],
@@ -864,14 +968,20 @@ def wf_judge(case, res):
     l, m, r = case["intf"]
     sc = sc_tuple(case["sc"])
     if res.get("exc"):
-        if res["status"] == "err:assert":
-            return bad                      # the move's own start assertion; nothing returned, nothing accepted
+        # (the move's own start assertion `err:assert` used to be skipped here: nothing is returned or accepted then,
+        #  but the old path must be untouched all the same)
         if not res["frames_same"] or not res["file_same"]:
             bad.append(("C09:wf:old-path-mutated-on-reject", f"{res['status']}: old frames/files changed"))
         return bad
     acc, status, ops = res["acc"], res["status"], res["ops"]
     if (acc is True) != (status == "ACC") or acc not in (True, False):
         bad.append(("C09:wf:accept-status-mismatch", f"accept={acc!r} status={status!r}"))
+    if acc and res.get("frames") is not None:
+        # "ordered in time", judged on the reversible toy dynamics of the scripted engine for every accepted path
+        # (whatever the start condition; also when an extender stream ended early): Lean wf_acc_time_ordered
+        k = time_ordered(res["frames"])
+        if k is not None:
+            bad.append(("C09:wf:accepted-path-not-ordered-in-time", not_ordered_text(res["frames"], k)))
     if acc and res.get("ran_out_ext"):
         # engine contract broken by the script: an extender stream ended before add_to_path said stop. The
         # extender ignores the engine's success flag, so such a path is accepted with an end inside — recorded
@@ -973,6 +1083,7 @@ def run_real_wf_scripted(case, via_md=False, eng=None, tis_set=None):
     l, m, r = case["intf"]
     gen = WfGen(float(Fraction(case["xi"])), case["raws"])
     eng.script_wf([(j["kick"], j["back"], j["forw"]) for j in case["jumps"]], case["eb"], case["ef"])
+    eng.keep_rev = not case.get("krf", False)
     tis_set = {"maxlength": case["ML"]} if shared is None else shared
     for key, val in (("n_jumps", case["nj"]), ("interface_cap", None if case["cap"] is None else float(case["cap"]))):
         if val is not None:
@@ -996,6 +1107,7 @@ def run_real_wf_scripted(case, via_md=False, eng=None, tis_set=None):
     def subt_wrapper(*a, **k):
         r = orig_subt(*a, **k)
         taps["subt"] = (r[0], r[1].status)
+        taps["turned"] = r[1] is not a[0]
         return r
     tis.subt_acceptance = subt_wrapper
     orig_shoot = tis.shoot
@@ -1041,7 +1153,7 @@ def run_real_wf_scripted(case, via_md=False, eng=None, tis_set=None):
         else:
             gtxt = f"badgen:{g!r}"
         flag = "1" if acc is True else ("0" if acc is False else f"badacc:{acc!r}")
-        res.update(acc=acc, status=status, ops=ops, trial=trial, status_attr=trial.status,
+        res.update(acc=acc, status=status, ops=ops, trial=trial, status_attr=trial.status, frames=frames_of(eng, trial),
                    line=f"ok {flag} {status} {gtxt} {trial.time_origin} {1 if trial is old else 0} "
                         f"{1 if rewritten else 0} | {lst(ops)} | {lst(gen.log)}")
         if acc:
@@ -1060,6 +1172,7 @@ def run_real_wf_scripted(case, via_md=False, eng=None, tis_set=None):
         eng.plan = None
     res["taps"] = taps
     res["draws"] = list(gen.log)
+    res["krevs"] = list(eng.kick_revs)
     after = snapshot(old)
     res["frames_same"] = frames_only(after) == frames_only(before)
     res["attr_changed"] = after != before and res["frames_same"]
@@ -1095,6 +1208,19 @@ def wf_model_line(case, res, variant="r"):
     return (f"wf {variant} {case['oto']} {l} {m} {r} {'-' if case['cap'] is None else case['cap']} {case['ML']} {nj} "
             f"{case['sc']} {case['sce']} {frac_token(Fraction(case['xi']))} {lst(case['old'])} {lst(case['eb'])} "
             f"{lst(case['ef'])} {len(case['jumps'])} {js}").rstrip()
+
+
+def wft_model_line(case, res, variant="r"):
+    """frames of the accepted path: `wft v list(krevs) <wire-fencing input>`"""
+    kr = [1 if b else 0 for b in res.get("krevs", [])]
+    return f"wft {variant} {lst(kr)} " + wf_model_line(case, res, variant)[len(f"wf {variant} "):]
+
+
+def real_frames_line(res):
+    """what the frame-level model must print for this real result: the frames of an accepted path, `none` otherwise"""
+    if res.get("exc") or res.get("status") != "ACC" or res.get("frames") is None:
+        return "none"
+    return show_frames(res["frames"])
 
 
 def gen_wf_cases(ctx):
@@ -1160,6 +1286,8 @@ def gen_wf_cases_small(ctx, n):
                              for j in jumps]
             case["eb"] = [x + off for x in eb]
             case["ef"] = [x + off for x in ef]
+        if rng.random() < 0.34:
+            case["krf"] = True            # the engine clears vel_rev at the velocity kick (GROMACS engine); default keeps it
         if wf_pick_ok(case):
             out.append(case)
     return out
@@ -1170,12 +1298,19 @@ def wf_tie(ctx, have_model):
     cases = gen_wf_cases(ctx)
     real = [run_real_wf_scripted(c) for c in cases]
     mod = ctx.driver([wf_model_line(c, res) for c, res in zip(cases, real)]) if have_model else None
+    modf = ctx.driver([wft_model_line(c, res) for c, res in zip(cases, real)]) if have_model else None
     n_rewrite = n_allow = 0
     for k, c in enumerate(cases):
         res = real[k]
         ctx.count(1, branch="wf-scripted:" + str(res["status"]))
         if have_model and res["line"] != mod[k]:
             ctx.disagree({"fn": "wire_fencing", "variant": "repaired", "wfs": c, "idx": res["idx"]}, res["line"], mod[k])
+        if have_model and not str(res["line"]).startswith("harness-exception") and real_frames_line(res) != modf[k]:
+            ctx.disagree({"fn": "wire_fencing: frames (stored point, vel_rev) of the accepted path", "wfs": c,
+                          "idx": res["idx"], "krevs": res.get("krevs")}, real_frames_line(res), modf[k])
+        if res.get("status") == "ACC" and res.get("frames"):
+            ctx.hit("wf-frames:accepted-" + ("turned-around-by-subt_acceptance" if res.get("taps", {}).get("turned")
+                                             else "as-generated"))
         for sig, what in judged(ctx, wf_judge, wf_as_judged(c), res):
             ctx.fail(sig, what, {"wfs": c, "code": res["line"]})
         if not res.get("ens_ok", True) and not res.get("acc"):
@@ -1638,6 +1773,16 @@ def run(ctx):
                 ctx.sample({"case": c, "code": line})
         ctx.hit("threshold-statement-applies", nthr)
         if have_model:
+            # frames (stored phase point, vel_rev) of the pasted trial path against Moves.shootT: defined exactly when the
+            # move got as far as the forward propagation (statuses FTL / FTX / 0-L / NCR / ACC)
+            fidx = [k for k, (line, info) in enumerate(real) if line.startswith("ok") and info.get("frames") is not None]
+            fmod = ctx.driver(["shoott r " + ("1" if real[k][1].get("krev") else "0") + model_line(cases[k], "r")[len("shoot r"):]
+                               for k in fidx])
+            for j, k in enumerate(fidx):
+                info = real[k][1]
+                want = show_frames(info["frames"]) if info["status"] in ("FTL", "FTX", "0-L", "NCR", "ACC") else "none"
+                if want != fmod[j]:
+                    ctx.disagree({"fn": "shoot: frames (stored point, vel_rev) of the trial path", "case": cases[k]}, want, fmod[j])
             # the code must be the `repaired` variant everywhere; agreement with `asIs` where the variants
             # differ is the regression of /repo f955162 (the property predicate above reports it with its input)
             ctx.extra["shoot_cases_where_variants_differ"] = sum(1 for k in range(len(cases)) if mods["a"][k] != mods["r"][k])
@@ -1688,6 +1833,9 @@ def run(ctx):
             else:
                 if not info["replaced"]:
                     ctx.fail("C09:run_md:accepted-path-not-installed", "status ACC but the old path stays", rep)
+                kbad = time_ordered(info.get("frames") or [])
+                if kbad is not None:
+                    ctx.fail("C09:run_md:installed-path-not-ordered-in-time", not_ordered_text(info["frames"], kbad), rep)
                 w = info["weights"]
                 if c.get("minus"):
                     if not (w is not None and len(w) == 1 and w[0] != 0):
@@ -1752,6 +1900,15 @@ def corpus_first(ctx):
             res = run_real_wf(r["wfcase"])
             for sig, what in wf_judge(r["wfcase"], res):
                 ctx.fail(sig, what, {"wfcase": r["wfcase"], "code": res["line"], "corpus": f.name})
+        elif "wfs" in r:
+            res = run_real_wf_scripted(r["wfs"])
+            for sig, what in wf_judge(wf_as_judged(r["wfs"]), res):
+                ctx.fail(sig, what, {"wfs": r["wfs"], "code": res["line"], "corpus": f.name})
+            if "expect_code" in r and res["line"] != r["expect_code"]:
+                ctx.disagree({"fn": "corpus " + f.name, "wfs": r["wfs"]}, res["line"], r["expect_code"], "recorded result of the witness")
+            if "expect_frames" in r and real_frames_line(res) != r["expect_frames"]:
+                ctx.disagree({"fn": "corpus " + f.name + " (frames)", "wfs": r["wfs"]}, real_frames_line(res), r["expect_frames"],
+                             "recorded frames of the witness (Lean: Infretis.Moves.wfRevEx_frames)")
         elif "atp" in r:
             got = real_atp(*r["atp"])
             if atp_bad(r["atp"], got) or atp_missed(r["atp"], got):
